@@ -113,6 +113,8 @@ def py_run_ops(ops: Sequence[Sequence[Any]]) -> List[Dict[str, Any]]:
             out.append({})
         elif k == "r":
             out.append({"r": lcd.read(op[1])})
+        elif k == "v":
+            out.append({"x": lcd.observe(None)[2].hex()})
         elif k == "b":
             base = np.array(lcd.display(), dtype=np.uint8).copy()
             if base.shape != (32, 240):
@@ -183,7 +185,9 @@ def _diff_expected(impl: str, exp: Obs, obs: Obs, prev: Obs, sel: Tuple[int, ...
             if eregs[ci][fi] != oregs[ci][fi] or type(oregs[ci][fi]) not in (int, bool):
                 fields.append(name)
                 how = "unchanged" if oregs[ci][fi] == prev[1][ci][fi] else "wrong value"
-                sym.append(f"{name} of {M.CHIP_NAME[ci]} chip ({_sel_word(ci, sel)}) {how}")
+                item = f"{name} of {_sel_word(ci, sel)} chip {how}"  # chip name is implied by cs in `where`
+                if item not in sym:
+                    sym.append(item)
                 det.append(f"{M.CHIP_NAME[ci]}.{name} expected {eregs[ci][fi]!r} got {oregs[ci][fi]!r}")
     if ev != ov:
         fields.append("vram")
@@ -195,7 +199,9 @@ def _diff_expected(impl: str, exp: Obs, obs: Obs, prev: Obs, sel: Tuple[int, ...
                 cells = [i for i in range(512) if ev[ci * 512 + i] != ov[ci * 512 + i]]
                 if cells:
                     n = str(len(cells)) if len(cells) <= 2 else "many"
-                    sym.append(f"vram of {M.CHIP_NAME[ci]} chip ({_sel_word(ci, sel)}) differs in {n} cell(s)")
+                    item = f"vram of {_sel_word(ci, sel)} chip differs in {n} cell(s)"
+                    if item not in sym:
+                        sym.append(item)
                     det.append(f"{M.CHIP_NAME[ci]} vram " + ", ".join(
                         f"[p{i // 64}][{i % 64}] exp {ev[ci * 512 + i]:#04x} got {ov[ci * 512 + i]:#04x}"
                         for i in cells[:4]))
@@ -400,7 +406,7 @@ def _pix_task(task: Dict[str, Any]) -> Dict[str, Any]:
     for col in range(64):
         b = base_byte(base, chip, page, col)
         for bit in range(8):
-            ops += [["w", _a(cs, 0), 0x40 | col], ["w", _a(cs, 1), b ^ (1 << bit)], ["d"]]
+            ops += [["w", _a(cs, 0), 0x40 | col], ["w", _a(cs, 1), b ^ (1 << bit)], ["v"], ["d"]]
             probes.append(("bit", col, bit))
         for val in _multi_values(base, chip, page, col):
             ops.append(["w", _a(cs, 0), 0x40 | col])
@@ -409,10 +415,10 @@ def _pix_task(task: Dict[str, Any]) -> Dict[str, Any]:
             ops.append(["w", _a(cs, 1), val])
             if want_cap:
                 ops.append(["ct"])
-            ops.append(["d"])
+            ops += [["v"], ["d"]]
             probes.append(("multi", col, val))
         ops += [["w", _a(cs, 0), 0x40 | col], ["w", _a(cs, 1), b]]
-    ops.append(["d"])  # everything restored: must be empty again
+    ops += [["v"], ["d"]]  # everything restored: must be empty again
     if impl == "py":
         try:
             res = py_run_ops(ops)
@@ -421,13 +427,27 @@ def _pix_task(task: Dict[str, Any]) -> Dict[str, Any]:
         except Exception as exc:  # noqa: BLE001
             return {"task": task, "error": f"{type(exc).__name__}: {exc}"[:200]}
     else:
-        rr = rs_run([{"ops": ops, "snap": False}])[0]
+        # VRAM dumps ("v") are reconstructed from the per-write snapshot deltas instead of being shipped (the shared
+        # pipe client reads unbuffered, so multi-megabyte replies are very slow)
+        rs_ops = [o for o in ops if o[0] != "v"]
+        rr = rs_run([{"ops": rs_ops, "snap": True}])[0]
         if "panic" in rr:
             return {"task": task, "error": "rust panic: " + str(rr["panic"])[:160]}
-        res = rr["steps"]
+        steps = iter(rr["steps"])
+        rs_vram = bytearray(1024)
+        res = []
+        for o in ops:
+            if o[0] == "v":
+                res.append({"x": bytes(rs_vram).hex()})
+                continue
+            st_ = next(steps)
+            if o[0] == "w":
+                _rs_obs(st_, rs_vram)
+            res.append(st_)
     base_rows = None
     diffs: List[List[int]] = []
     caps: List[Any] = []
+    vrams: List[str] = []
     for op, r in zip(ops, res):
         if op[0] == "b":
             base_rows = r["b"]
@@ -435,10 +455,27 @@ def _pix_task(task: Dict[str, Any]) -> Dict[str, Any]:
             diffs.append(r["d"])
         elif op[0] == "ct":
             caps.append(r["c"])
-    if len(diffs) != len(probes) + 1:
+        elif op[0] == "v":
+            vrams.append(r["x"])
+    if len(diffs) != len(probes) + 1 or len(vrams) != len(diffs):
         raise HarnessError("pixel-map driver lost probe results")
+    # The enumeration is only meaningful if each probe write really produced "base with one byte replaced"
+    # (that is Part A's subject); verify it through the snapshot API and report it as ONE symptom otherwise.
+    full = bytearray(base_byte(base, c_, p_, k_) for c_ in (0, 1) for p_ in range(8) for k_ in range(64))
+    state_bad = None
+    for (kind, col, x), hexv in list(zip(probes, vrams[:-1])) + [(("final", 0, 0), vrams[-1])]:
+        want = bytearray(full)
+        if kind != "final":
+            idx = chip * 512 + page * 64 + col
+            want[idx] = (full[idx] ^ (1 << x)) if kind == "bit" else x
+        if bytes.fromhex(hexv) != bytes(want):
+            got = bytes.fromhex(hexv)
+            cells = [i for i in range(min(len(got), 1024)) if got[i] != want[i]]
+            state_bad = (f"after {kind} probe at column {col}: {len(cells)} VRAM byte(s) differ from 'base with one byte "
+                         f"replaced', e.g. " + ", ".join(f"{M.CHIP_NAME[i // 512]}[p{(i % 512) // 64}][{i % 64}]" for i in cells[:3]))
+            break
     return {"task": task, "probes": probes, "diffs": diffs[:-1], "final": diffs[-1], "caps": caps,
-            "base_rows": base_rows}
+            "base_rows": base_rows, "state_bad": state_bad}
 
 
 def _triples(flat: List[int]) -> List[Tuple[int, int, int]]:
@@ -466,6 +503,11 @@ def judge_pixmap(cfg: Dict[str, Any], results: List[Dict[str, Any]], rep: Report
         chip, page = t["chip"], t["page"]
         if "error" in res:
             rep.violate(Violation(f"{impl}:exception", f"pixel-map {tag}", "display/write path raised", case, res["error"]))
+            continue
+        if res.get("state_bad"):
+            rep.violate(Violation("pixel-map:probe-state", f"{tag} {M.CHIP_NAME[chip]} chip",
+                                  "set page / set Y / data write did not replace exactly the addressed VRAM byte", case,
+                                  f"page {page}: {res['state_bad']}"))
             continue
         cap_i = 0
         for (kind, col, x), flat in zip(res["probes"], res["diffs"]):
@@ -541,7 +583,7 @@ def judge_pixmap(cfg: Dict[str, Any], results: List[Dict[str, Any]], rep: Report
             rep.violate(Violation("pixel-map:restore", f"{tag} {M.CHIP_NAME[chip]} chip",
                                   "display differs after every byte was written back", case,
                                   f"{len(res['final']) // 3} pixels differ after restoring page {page}"))
-    if any("error" in r for r in results):
+    if any("error" in r or r.get("state_bad") for r in results):
         return
     none_px = [(r_, c_) for r_ in range(32) for c_ in range(240) if (r_, c_) not in hits]
     multi_px = sorted(p for p, bits in hits.items() if len(bits) > 1)
@@ -605,7 +647,7 @@ def run_pixmap(ctx: Ctx, cfgs: List[Dict[str, Any]], rep: Report) -> None:
 def run(ctx: Ctx) -> Report:
     rsclient.build()
     nshards = 16 if ctx.quick else 64
-    per = 60 if ctx.quick else 160
+    per = 100 if ctx.quick else 160
     reports = ctx.pmap(_hist_shard, [(i, per, ctx.seed, ctx.tier) for i in range(nshards)])
     rep = ctx.merge_reports(reports)
     t1 = time.time()
